@@ -258,13 +258,15 @@ def c17():
               _sim_run("intervals", 4096, 200000), _sim_run("conv", 1500, 30000),
               _sim_tcp_run("intervals", 1024, 20000), _sim_tcp_run("conv", 600, 12000)],
         floors={"c17/interval_checks": T(12000, 500000), "c17/rtr_init_calls": 512, "c17/wait_timeout_checks": T(10000, 200000),
-                "c17/polls_after_notify": T(100, 2000)},
+                "c17/polls_after_notify": T(100, 2000), "c17/interval_mode_switched_inside_a_response": T(300, 5000)},
         rule=("ivinit: rtr_init and rtr_mgr_init over the full cross product of 8 boundary values per interval (0, min-1.., max+1, "
               "2^32-1): rejected iff any value is out of range, *config_out NULL on rejection. intervals: one real synchronisation "
               "per (mode x End of Data triple from the boundary cross product, then random 32-bit triples) x initial settings at "
               "the range boundaries x v1/v0: afterwards the socket's three intervals must equal the table ignore-any -> unchanged, "
               "accept-any -> as sent, default-min-max -> clamped, ignore-on-failure -> as sent iff inside; v0 -> unchanged "
-              "(baseline = the socket's values when the query went out). Poll timing on the wire in all conversations: while "
+              "(baseline = the socket's values when the query went out); in one scenario in three the application calls "
+              "rtr_set_interval_mode() on the client's thread between two reads of the first response (after the Cache Response, "
+              "inside the payload or just behind the End of Data): the mode in force when the End of Data is processed decides. Poll timing on the wire in all conversations: while "
               "established the receive timeout handed to the transport must be max(0, t_ok + refresh - now); a delivered Serial "
               "Notify must be followed by the Serial Query in the same virtual second; otherwise the query goes out no later than "
               "t_ok + refresh. Distinct by hash of the interval triple / scenario trace." + TCP_RULE),
@@ -452,7 +454,8 @@ def c06():
               dict(name="reload-big", bin="conc", config="plain", mode="reload", cases=T(2, 24), args=["epochs=6", "records=1024", "readers=14"], chunks=2, timeout=1800),
               dict(name="reload-tsan", bin="conc", config="tsan", mode="reload", cases=T(3, 30), args=["epochs=4", "records=200", "readers=4"], chunks=3, timeout=1800, tsan=True)],
         floors={"c06/observations_while_reload_in_flight": T(100000, 2000000), "c06/reloads_completed": T(100, 1500),
-                "c06/flip_query_observations": T(50000, 1000000), "c06/new_set_observations": T(10000, 200000)},
+                "c06/flip_query_observations": T(50000, 1000000), "c06/new_set_observations": T(10000, 200000),
+                "c06/reloads_rejected_at_end_of_data_then_retried": T(3, 40)},
         rule=("The real FSM thread (rtr_start) synchronises with a scripted cache that has restarted with a new session id and the next "
               "of 5-9 pre-computed data sets (a common core + a random half of the remaining 1000 prefix records / 192 router keys) at "
               "every poll: Serial Query -> Cache Reset -> Reset Query -> full response, i.e. a reload while the socket already holds "
@@ -461,7 +464,9 @@ def c06():
               "discarded; the counter advances when the new set goes on the wire). Oracle per table: the answer must equal the "
               "pre-computed answer under the old or under the new set; a query with the same answer under both must never deviate "
               "(this is what detects an empty or half-loaded table); per reader, after a new-only answer no old-only answer may follow "
-              "within the epoch. A run without observations inside a reload window is inconclusive. TSan build: same workload, smaller "
+              "within the epoch. One reload in three fails first and is retried: half of those are cut short after a few PDUs, the "
+              "other half arrive complete but announce a record twice, so that the client rejects them at End of Data and takes back "
+              "what it had applied - readers must see the old set all along. A run without observations inside a reload window is inconclusive. TSan build: same workload, smaller "
               "data; table-code race reports are violations. Distinct by hash of the per-run observation counts."),
         assumptions=CONC_ASSUME + SIM_ASSUME[:3],
     )
@@ -538,13 +543,17 @@ def c12():
               dict(name="sign-long", bin="bgpmon", config="asan", mode="sign", cases=T(400, 6000), args=["hops=32"], chunks=16),
               dict(name="sign-very-long", bin="bgpmon", config="asan", mode="sign", cases=T(96, 1500), args=["hops=96"], chunks=16),
               dict(name="concurrent", bin="bgpmon", config="asan", mode="mt", cases=T(32, 640), args=["hops=8", "threads=4"], chunks=8)],
-        floors={"c12/signatures_verified_independently": T(60000, 800000), "c12/assembled_paths_validated": T(15000, 200000), "c12/negative_cases": T(15000, 200000)},
+        floors={"c12/signatures_verified_independently": T(60000, 800000), "c12/assembled_paths_validated": T(15000, 200000), "c12/negative_cases": T(15000, 200000),
+                "c12/negative/scalar-only-key-out-of-range": T(1000, 10000), "c12/signings_with_a_scalar_only_key_file": T(5000, 50000)},
         rule=("For random paths (1..8, 1..32 and 1..96 hops, every NLRI length of both families, arbitrary field values, keys drawn from 24 "
               "fresh P-256 pairs) every hop from the origin to the newest is signed through rtr_mgr_bgpsec_generate_signature; each "
               "result must be exactly one well-formed DER ECDSA-Sig-Value of the announced length and must verify under the matching "
               "public key with EVP_DigestVerify over the ORACLE's RFC 8205 4.2 octet sequence; the path assembled from the generated "
-              "signatures must validate as VALID both by the library and by the oracle. Negative cases per path: random, truncated "
-              "and wrong-curve (P-384) private keys -> LOAD_PRIV_KEY_ERROR; unsupported suite / AFI and path_len != sigs_len + 1 (too few "
+              "signatures must validate as VALID both by the library and by the oracle. One key file in five carries the scalar only (RFC "
+              "5915 makes the public key optional); every other request has a my_as that differs from the newest segment's AS (it "
+              "takes no part in the digest). Negative cases per path: random, truncated, wrong-curve (P-384) private keys, scalar-only "
+              "key files whose scalar is 0, n, just above n or near 2^256, and key files carrying another key's public point -> "
+              "LOAD_PRIV_KEY_ERROR; unsupported suite / AFI and path_len != sigs_len + 1 (too few "
               "signatures: any count 0..n-2; too many: n) -> "
               "their specific codes with *new_signature left NULL; every negative call is made twice and must answer the same. A sample "
               "of the EVP verdicts is re-judged by the pure-Python verifier. concurrent: 4 threads, 150 rounds each per case, every round "
@@ -655,7 +664,8 @@ def c04():
                    remap_props={"C03:": "C04"}),
               _sim_tcp_run("fuzz", 2000, 40000), _sim_tcp_run("faults", 512, 10240)],
         floors={"c04/streams_x_chunkings": T(70000, 950000), "c04/post_exchange_probes": T(17000, 240000), "sim/response/defective": T(10000, 200000),
-                "sim/response/truncated": T(2000, 30000), "libfuzzer/executions": T(15000, 1500000)},
+                "sim/response/truncated": T(2000, 30000), "libfuzzer/executions": T(15000, 1500000),
+                "sim/scenarios_with_responses_of_over_300_pdus_per_kind": T(10, 100)},
         rule=(SIM_RULE_COMMON + "fuzz: a structure-aware generator builds a well-formed answer (Cache Response, up to 24 prefix / router-key "
               "PDUs, optional Error Report, End of Data) and applies 0-3 mutations: length field from {0,1,7,8,9,12,20,24,32,3247,3248,3249, "
               "65535,65536,2^31-1,2^31,2^32-1, correct+-4}, type, version, flags / prefix length / max length / zero byte from "
